@@ -50,5 +50,29 @@ def pmap(fn, items, nproc=None, chunk=None):
     if nproc == 1 or len(parts) == 1:
         return [fn(p) for p in parts]
     ctx = mp.get_context("fork")
-    with ctx.Pool(min(nproc, len(parts))) as pool:
-        return pool.map(_Plain(fn), parts, chunksize=1)
+    # A worker process that DIES (a SystemError out of the interpreter, the OOM killer, a segmentation fault) makes Pool.map wait
+    # for ever; the executor below fails the outstanding chunks instead.  The results of the chunks that finished are kept, the
+    # lost ones are counted in LOST: core.Check.finish() turns lost chunks into a machinery failure unless violations were found
+    # anyway (then they are reported together with the number of lost chunks).
+    import concurrent.futures as cf
+    from concurrent.futures.process import BrokenProcessPool
+    results = [None] * len(parts)
+    todo = list(range(len(parts)))
+    for attempt in range(3):
+        lost = []
+        with cf.ProcessPoolExecutor(min(nproc, len(todo)), mp_context=ctx) as ex:
+            futs = {i: ex.submit(_Plain(fn), parts[i]) for i in todo}
+            for i, f in futs.items():
+                try:
+                    results[i] = f.result()
+                except BrokenProcessPool:
+                    lost.append(i)
+        if not lost:
+            break
+        todo = lost            # chunks that merely shared the pool with the dying worker succeed on the next attempt
+    else:
+        LOST.append(len(todo))
+    return [r for r in results if r is not None]
+
+
+LOST = []
